@@ -3,6 +3,9 @@
 CONFIGS = {
     "native": {"args": ["--release"], "bin": "release/svh"},
     "miri": {"miri": True, "args": [], "env": {"MIRIFLAGS": "-Zmiri-disable-isolation"}},
+    "asan": {"toolchain": ["+nightly"], "args": ["--release", "--target", "x86_64-unknown-linux-gnu"],
+             "env": {"RUSTFLAGS": "-Zsanitizer=address -Cforce-frame-pointers=yes"},
+             "bin": "x86_64-unknown-linux-gnu/release/svh"},
     "tsan": {"toolchain": ["+nightly"], "args": ["--release", "-Zbuild-std", "--target", "x86_64-unknown-linux-gnu"],
              "env": {"RUSTFLAGS": "-Zsanitizer=thread", "RUSTUP_TOOLCHAIN": "nightly"},
              "bin": "x86_64-unknown-linux-gnu/release/svh"},
@@ -126,7 +129,7 @@ def osrun(qcases, tcases, sub="os", cfg="native", **kw):
 
 def tsan(tcases):
     return {"sub": "os-tsan", "cfg": "tsan", "thorough": {"cases": tcases, "secs": 900},
-            "env": {"TSAN_OPTIONS": "halt_on_error=0 exitcode=66 report_signal_unsafe=0"}, "sanitizer": "tsan"}
+            "env": {"TSAN_OPTIONS": "halt_on_error=1 exitcode=66 report_signal_unsafe=0"}, "sanitizer": "tsan"}
 
 
 def C(rule, runs, minq, **kw):
@@ -235,6 +238,33 @@ PLANS["C26"] = {
     "runs": [{"sub": "persist", "cfg": "persist", "quick": {"cases": 320000, "secs": 150}, "thorough": {"cases": 6000000, "secs": 900}}],
     "min_counts": {"quick": {"round_trips": 100000, "restored_memos_served_without_execution": 100000, "writes_after_restore": 100000}},
     "assumptions": ASSUME_SINGLE + ["the persistence twin of the harness world uses a restricted expression subset (no specify, no accumulators, no cycles)"],
+}
+ASAN_ENV = {"ASAN_OPTIONS": "detect_leaks=0:halt_on_error=1:abort_on_error=0:exitcode=134"}
+PLANS["C23"] = {
+    "rule": ("case = seeded (program, history) of one of the families acyclic-mixed, lru, makers, churn (interned/tracked slot reuse), "
+             "specify, fixpoint (some fixpoint functions also lru) and cycle_result, run with reference retention: every `&V` returned by "
+             "a tracked function during a revision is remembered with the value it pointed to and re-read just before the next `&mut` step "
+             "(write, eviction trigger, capacity change); executed natively (a changed value or a crash is a violation), under "
+             "AddressSanitizer, under Miri (tiny volume; undefined behaviour, data races and leaks after the database is dropped are "
+             "reported) and, thorough only, under valgrind memcheck and on OS threads under ASan/TSan; non-trivial iff >=1 retained "
+             "reference was re-read" + DIST),
+    "runs": [
+        {"sub": "mem", "cfg": "native", "sanitizer": "native", "quick": {"cases": 48000, "secs": 100}, "thorough": {"cases": 2000000, "secs": 900}},
+        {"sub": "mem-asan", "cfg": "asan", "sanitizer": "asan", "env": ASAN_ENV,
+         "quick": {"cases": 16000, "secs": 100}, "thorough": {"cases": 800000, "secs": 900}},
+        {"sub": "mem-miri", "cfg": "miri", "sanitizer": "miri", "max_shards": 1,
+         "quick": {"cases": 3, "secs": 400, "hard_timeout": 1500}, "thorough": {"cases": 80, "secs": 3000, "hard_timeout": 6000}},
+        {"sub": "os-asan", "cfg": "asan", "sanitizer": "asan", "env": ASAN_ENV, "thorough": {"cases": 6000, "secs": 900}},
+        {"sub": "fault-asan", "cfg": "asan", "sanitizer": "asan", "env": ASAN_ENV, "thorough": {"cases": 20000, "secs": 900}},
+        {"sub": "mem-memcheck", "cfg": "native", "sanitizer": "memcheck",
+         "wrap": ["valgrind", "-q", "--error-exitcode=9", "--errors-for-leak-kinds=none", "--leak-check=no"],
+         "thorough": {"cases": 320, "secs": 900}},
+    ],
+    "min_counts": {"quick": {"retained_refs_checked": 500000, "family:C12": 5000, "family:C05": 3000}},
+    "assumptions": ["a clean sanitizer / Miri run is not memory safety: red zones miss non-adjacent accesses, Miri covers tiny histories only",
+                    "leak verdicts come from Miri's exact leak check on the cases it runs; LeakSanitizer is off (false positives through packed "
+                    "pointers, see DESIGN.md section 12)",
+                    "reference retention covers references to function results, not to individual struct fields"],
 }
 PLANS["C14"]["runs"].append(osrun(480, 12000))
 PLANS["C14"]["min_counts"]["quick"]["propagated_cycle_panics"] = 5
